@@ -164,6 +164,14 @@ let op_lit (args : str list) : str list =
            (match daytime h m s with None -> ["none"]
             | Some (((a, b), c), d) -> [dec_of_n a; dec_of_n b; dec_of_n c; dec_of_n d])
        | _ -> ["none"])
+  | "todtext" :: hh :: mm :: ss :: us :: _ ->
+      (* the renderer model's text for the seconds, and what the literal model reads it back as *)
+      (match integer_new (text_of_hex hh), integer_new (text_of_hex mm), integer_new (text_of_hex ss), integer_new (text_of_hex us) with
+       | Some h, Some m, Some s, Some u ->
+           let txt = S.concat "." (List.map dec_of_n (seconds_text s u)) in
+           (match read_back h m s u with None -> [txt; "none"]
+            | Some (((a, b), c), d) -> [txt; dec_of_n a; dec_of_n b; dec_of_n c; dec_of_n d])
+       | _ -> ["none"])
   | "addr" :: h :: _ ->
       (match address (text_of_hex h) with
        | None -> ["none"]
